@@ -398,3 +398,204 @@ TWINS2 = [
     ("context-manager-expression-through-a-variable", twin_with_temps),
     ("not-in-written-as-negated-membership", twin_not_in),
 ]
+
+
+# ---------------------------------------------------------------------------------------------- additive: new members that nothing uses
+def twin_additions(tree, relpath):
+    """every class gets a new public method and a new private one, every module a new function and a new constant: code that nothing calls"""
+    for n in ast.walk(tree):
+        if isinstance(n, ast.ClassDef) and not any(isinstance(b, ast.Name) and b.id in ("Enum", "IntEnum") for b in n.bases):
+            n.body.append(ast.parse("def twin_describe(self):\n    return 'a %s' % type(self).__name__").body[0])
+            n.body.append(ast.parse("def _twin_private(self, value=None):\n    if value is None:\n        return 0\n    return len(str(value))").body[0])
+    tree.body.append(ast.parse("TWIN_LIMIT = 4096").body[0])
+    tree.body.append(ast.parse("def twin_helper(value=None):\n    result = []\n    if value:\n        result.append(value)\n    return result").body[0])
+    return tree
+
+
+TWINS2.append(("unused-methods-functions-and-constants-added-everywhere", twin_additions))
+
+
+# ---------------------------------------------------------------------------------------------- extract method
+class _Extract:
+    """Extract Method, mechanically: in every function, a run of 2..6 consecutive simple statements (no return / yield / break / continue / del / global / nonlocal / try,
+    no nested function or class) that is a direct member of some statement list is moved into a new helper - a new method `_x<N>_<name>(self, <ins>)` of the same class
+    when the function is a plain method, a new module-level function otherwise - and replaced by `<outs> = helper(<ins>)`.
+    ins  = locals of the function that the run reads and that are parameters or assigned by a statement that lexically precedes the run at the same or an outer level
+           (so they are bound when the call is made);
+    outs = locals the run assigns that are read anywhere else in the function.
+    A run that reads a local which is neither an `in` nor assigned earlier inside the run itself is not extracted."""
+
+    SIMPLE = (ast.Assign, ast.AugAssign, ast.Expr, ast.If, ast.For, ast.While, ast.With, ast.Raise, ast.Assert, ast.Pass)
+    BANNED = (ast.Return, ast.Yield, ast.YieldFrom, ast.Break, ast.Continue, ast.Delete, ast.Global, ast.Nonlocal, ast.Try, ast.FunctionDef, ast.ClassDef, ast.Lambda,
+              ast.Await, ast.NamedExpr, ast.Import, ast.ImportFrom, ast.ListComp, ast.SetComp, ast.DictComp, ast.GeneratorExp)
+
+    def __init__(self, every=3):
+        self.n = 0
+        self.every = every
+        self.new_module_fns = []
+
+    @staticmethod
+    def names(nodes, ctx):
+        out = []
+        for st in nodes:
+            for x in ast.walk(st):
+                if isinstance(x, ast.Name) and isinstance(x.ctx, ctx):
+                    out.append(x.id)
+        return out
+
+    def function(self, fn, cls):
+        params = [a.arg for a in fn.args.posonlyargs + fn.args.args + fn.args.kwonlyargs]
+        if fn.args.vararg:
+            params.append(fn.args.vararg.arg)
+        if fn.args.kwarg:
+            params.append(fn.args.kwarg.arg)
+        if any(isinstance(x, (ast.Global, ast.Nonlocal, ast.Yield, ast.YieldFrom)) for x in ast.walk(fn)):
+            return []
+        if any(isinstance(x, (ast.FunctionDef, ast.Lambda, ast.ClassDef)) and x is not fn for x in ast.walk(fn)):
+            return []       # closures: leave alone
+        if any(isinstance(d, ast.Name) and d.id in ("staticmethod", "classmethod", "property") or isinstance(d, ast.Attribute) for d in fn.decorator_list):
+            selfname = None
+        else:
+            selfname = params[0] if (cls is not None and params) else None
+        if cls is not None and selfname is None:
+            return []
+        locals_ = set(params) | set(self.names([fn], ast.Store))
+        for x in ast.walk(fn):
+            if isinstance(x, ast.ExceptHandler) and x.name:
+                locals_.add(x.name)
+        new_helpers = []
+
+        def visit_list(body, bound_before):
+            """bound_before: locals certainly assigned when control reaches the start of this list"""
+            bound = set(bound_before)
+            i = 0
+            while i < len(body):
+                st = body[i]
+                # candidate run starting at i
+                j = i
+                while j < len(body) and j - i < 6 and isinstance(body[j], self.SIMPLE) and not any(isinstance(x, self.BANNED) or (isinstance(x, ast.Raise) and x.exc is None) or
+                                                                                                   (isinstance(x, ast.Name) and x.id == "super") for x in ast.walk(body[j])):
+                    j += 1
+                run = body[i:j]
+                done = False
+                if len(run) >= 2:
+                    self.n += 1
+                    if self.n % self.every == 0:
+                        done = self.try_extract(fn, cls, selfname, body, i, j, bound, locals_, new_helpers)
+                if done:
+                    st = body[i]
+                    for nm in self.names([st], ast.Store):
+                        bound.add(nm)
+                    i += 1
+                    continue
+                # descend
+                for field in ("body", "orelse", "finalbody"):
+                    sub = getattr(st, field, None)
+                    if isinstance(sub, list) and sub and isinstance(sub[0], ast.stmt):
+                        inner = set(bound)
+                        if isinstance(st, (ast.For,)) and field == "body":
+                            inner |= set(self.names([st.target], ast.Store))
+                        if isinstance(st, ast.With) and field == "body":
+                            for it in st.items:
+                                if it.optional_vars is not None:
+                                    inner |= set(self.names([it.optional_vars], ast.Store))
+                        visit_list(sub, inner)
+                for h in getattr(st, "handlers", []):
+                    visit_list(h.body, set(bound) | ({h.name} if h.name else set()))
+                if isinstance(st, (ast.Assign, ast.AugAssign, ast.With, ast.Import, ast.ImportFrom)):
+                    if isinstance(st, ast.Assign):
+                        for nm in self.names(st.targets, ast.Store):
+                            bound.add(nm)
+                    elif isinstance(st, ast.With):
+                        for it in st.items:
+                            if it.optional_vars is not None:
+                                bound |= set(self.names([it.optional_vars], ast.Store))
+                i += 1
+        visit_list(fn.body, set(params))
+        return new_helpers
+
+    def try_extract(self, fn, cls, selfname, body, i, j, bound, locals_, new_helpers):
+        run = body[i:j]
+        stores = self.names(run, ast.Store)
+        # reads in order of appearance; a read of a local not bound before the run must be preceded (lexically, at top level of the run) by its store in the run
+        ins = []
+        seen_store = set()
+        for st in run:
+            loads = [x.id for x in ast.walk(st) if isinstance(x, ast.Name) and isinstance(x.ctx, ast.Load)]
+            for nm in loads:
+                if nm in locals_ and nm != selfname:
+                    if nm in bound:
+                        if nm not in ins:
+                            ins.append(nm)
+                    elif nm not in seen_store:
+                        return False
+            if isinstance(st, ast.AugAssign) and isinstance(st.target, ast.Name):
+                nm = st.target.id
+                if nm in bound:
+                    if nm not in ins:
+                        ins.append(nm)
+                elif nm not in seen_store:
+                    return False
+            if isinstance(st, ast.Assign):
+                seen_store |= set(self.names(st.targets, ast.Store))
+        rest_loads = set()
+        for x in ast.walk(fn):
+            if isinstance(x, ast.Name) and isinstance(x.ctx, ast.Load) and not any(x is y for st in run for y in ast.walk(st)):
+                rest_loads.add(x.id)
+        outs = [nm for nm in dict.fromkeys(stores) if nm in rest_loads]
+        # an `out` that is only conditionally assigned inside the run must already be bound (it is then also passed in and returned unchanged)
+        top_assigned = set()
+        for st in run:
+            if isinstance(st, ast.Assign):
+                top_assigned |= set(self.names(st.targets, ast.Store))
+        for nm in outs:
+            if nm not in top_assigned:
+                if nm in bound:
+                    if nm not in ins:
+                        ins.append(nm)
+                else:
+                    return False
+        name = "_x%d_%s" % (self.n, fn.name.strip("_") or "fn")
+        args = ([selfname] if selfname else []) + ins
+        helper = ast.FunctionDef(name=name, args=ast.arguments(posonlyargs=[], args=[ast.arg(arg=a) for a in args], vararg=None, kwonlyargs=[], kw_defaults=[], kwarg=None, defaults=[]),
+                                 body=list(run), decorator_list=[], returns=None, type_comment=None, type_params=[])
+        if outs:
+            helper.body.append(ast.Return(value=ast.Tuple(elts=[ast.Name(id=o, ctx=ast.Load()) for o in outs], ctx=ast.Load()) if len(outs) > 1 else ast.Name(id=outs[0], ctx=ast.Load())))
+        if selfname:
+            callee = ast.Attribute(value=ast.Name(id=selfname, ctx=ast.Load()), attr=name, ctx=ast.Load())
+        else:
+            callee = ast.Name(id=name, ctx=ast.Load())
+        call = ast.Call(func=callee, args=[ast.Name(id=a, ctx=ast.Load()) for a in ins], keywords=[])
+        if outs:
+            tgt = ast.Tuple(elts=[ast.Name(id=o, ctx=ast.Store()) for o in outs], ctx=ast.Store()) if len(outs) > 1 else ast.Name(id=outs[0], ctx=ast.Store())
+            new = ast.Assign(targets=[tgt], value=call)
+        else:
+            new = ast.Expr(value=call)
+        ast.copy_location(new, run[0])
+        ast.copy_location(helper, fn)
+        body[i:j] = [new]
+        new_helpers.append((helper, bool(selfname)))
+        return True
+
+
+def _mangled_private_use(node):
+    return any(isinstance(x, ast.Attribute) and x.attr.startswith("__") and not x.attr.endswith("__") for x in ast.walk(node)) or \
+        any(isinstance(x, ast.Name) and x.id.startswith("__") and not x.id.endswith("__") for x in ast.walk(node))
+
+
+def twin_extract_methods(tree, relpath, every=3):
+    ex = _Extract(every)
+    for n in list(tree.body):
+        if isinstance(n, ast.ClassDef):
+            for m in list(n.body):
+                if isinstance(m, ast.FunctionDef):
+                    for helper, is_method in ex.function(m, n):
+                        if is_method or not _mangled_private_use(helper):
+                            (n.body if is_method else tree.body).append(helper)
+                        else:
+                            n.body.append(ast.FunctionDef(name=helper.name, args=helper.args, body=helper.body, decorator_list=[ast.Name(id="staticmethod", ctx=ast.Load())],
+                                                          returns=None, type_comment=None, type_params=[]))
+        elif isinstance(n, ast.FunctionDef):
+            for helper, _ in ex.function(n, None):
+                tree.body.append(helper)
+    return tree
